@@ -27,7 +27,8 @@ PROPS = {
                       '(known finding, replayed on the code). Partial: liveness proper (timers fire, workers run) is a fairness assumption.',
         'level_note': 'Trusted: Coq kernel; hand-written LTS; scheduling abstraction; harness timing.',
     },
-    'C09': {
+    'C09': {   ' || sidecarbinary, in every run: `kvass` is built from the working tree (cmd/kvass is where the managers are wired and the store is loaded) and `kvass sidecar` is started on scratch store directories with a stub Prometheus: a store written by a real targets manager is resumed (the API lists its targets); an old-format store with the reload failing at the first start is served by that start and by the next onealways_cmds': [['sidecarbinary']],
+       
         'engines': [('store', 200, 4000, ['-shardsize', '100']), ('sidecar', 200, 4000, ['-propok', 'c10_case', '-shardsize', '100'])],
         'rule': 'store engine: pairs of distinct assignments (0-2 jobs incl. names with spaces/quotes, 0-3 targets each, 1/25 with 300-2000 targets; '
                 'label values with quotes, backslashes, newlines, tabs, control characters, <>&, U+2028, non-ASCII, empty; both states); the old one '
@@ -177,7 +178,8 @@ PROPS = {
                         'Gen/Consts.v regenerated from the Go source by kvharness translate (minWaitScrapeTimes, relief threshold table as exact '
                         'binary64)',
                         'Go map iteration = any permutation, weightedrand.Pick = any eligible shard (Base/Sched.v)']},
-    'C04': {   'assumptions': [   'series/total/limits below 2^53 (float64 products exact in Base/Float64.v); int32/int64 overflow not modelled',
+    'C04': {   'always_cmds': [['coordinatorbinary']],
+          'assumptions': [   'series/total/limits below 2^53 (float64 products exact in Base/Float64.v); int32/int64 overflow not modelled',
                        'explorer objects are not mutated within a cycle (value semantics; validated by the differential run)',
                        'time.Now() drift during the run is far below the idle-age margins used by the generator'],
     'engines': [('coord', 1200, 24000, ['-propok', 'c04_case', '-shardsize', '100'])],
@@ -195,7 +197,7 @@ PROPS = {
             'limits, at the relief thresholds (1.1,1.4,1.6,1.8 x), tied with shard 0 on purpose; idle ages 30s..100000s vs max-idle 0/60/3600; '
             'min/max shard around the current count; explorer results present/absent/bad/unknown; failing POSTs and failing early scale request; '
             'malformed stream: min>max, max_proc=0. Membership under ALL schedules of the model (enumerated, budget 6000). non-trivial = the cycle '
-            'sent at least one target POST or requested a scale different from the current count; distinct by input',
+            'sent at least one target POST or requested a scale different from the current count; distinct by input || coordinatorbinary, in every run (25 s): `kvass` is built from the working tree and `kvass coordinator` is started with a static shard file (a stub sidecar), a configuration file with three static targets over two jobs pointing at a real HTTP target of 100 samples, a 300 ms period: the API lists the targets, the shard is given them with their explored sizes, a reload that removes a job removes its target from the API at once, a reload that restores it brings it back; a second process with --shard.max-head-series=1500 --shard.max-process-series=1000 and a shard reporting 1450 head series places nothing',
     'theorems': 'C04_fits C04_running_load C04_reported_plus_placed_fits C04_oversized_never_assigned C04_oversized_adds_no_need',
     'trusted_base': [   'model Model/Coordinator.v hand-written from rebalance.go/coordinator.go/shard.go; tie = differential run of the real '
                         'Coordinator (hook VerifRunOnce) against scripted shards through Shard.APIGet/APIPost, compared under every schedule of the '
@@ -412,14 +414,15 @@ PROPS = {
                       'equal modulo external labels. Tied by the edit catalogue run through the real ConfigManager in separate processes.',
         'level_note': 'Trusted: Coq kernel; hand-written traversal model; reflect/ast translators; YAML parser; FNV collision-freedom unprovable.',
     },
-    'C17': {
+    'C17': {   'always_cmds': [['coordinatorbinary']],
+       
         'engines': [('discovery', 300, 6000, ['-shardsize', '50'])],
         'rule': 'incl. RACES: an update of one configured job is paused inside translateTargets (after it read the configuration of the job, before it stores; the pause is a logrus hook on its own log line, no code hook) while a reload removes that job or keeps it - observed after the reload and after the update completes, handed to the model as reload-then-update (linearisation); histories of 3-8 (3-14 thorough) ops on the REAL TargetsDiscovery.Run (fed through its input channel) + ApplyConfig, with the real '
                 'Explore fed from ActiveTargetsChan and reloaded alongside (as cmd/kvass wires them): reloads over 3 jobs (each present 3/4, config '
                 'version keep-all or drop-marked), full and partial updates (0-2 groups x 0-3 targets per job, addresses disjoint between jobs, 1/4 '
                 'marked for dropping, duplicates inside and across groups), updates for an unknown job. Observed after every op: ActiveTargets, '
                 'DropTargets, ActiveTargetsByHash, which hashes Explore.Get knows; WaitInit at the end; every map returned by a reader is HELD and '
-                're-compared at the end of the history (snapshot). non-trivial = >= 3 ops; distinct by input',
+                're-compared at the end of the history (snapshot). non-trivial = >= 3 ops; distinct by input || coordinatorbinary, in every run (25 s): `kvass` is built from the working tree and `kvass coordinator` is started with a static shard file (a stub sidecar), a configuration file with three static targets over two jobs pointing at a real HTTP target of 100 samples, a 300 ms period: the API lists the targets, the shard is given them with their explored sizes, a reload that removes a job removes its target from the API at once, a reload that restores it brings it back; a second process with --shard.max-head-series=1500 --shard.max-process-series=1000 and a shard reporting 1450 head series places nothing',
         'theorems': 'C17_latest C17_only_configured C17_reload_no_gap C17_update_others_untouched C17_waitinit C17_message C17_explorer_update '
                     'C17_explorer_reload',
         'trusted_base': ['Model/Discovery.v hand-written from discovery.go (one atomic step per critical section; translation of a job\'s groups is a '
